@@ -850,6 +850,113 @@ func (m *Model) ruleEXP(r *Results) {
 	m.ruleExpCallback(r, rule)
 	// (h) the offset rule
 	m.ruleExpOffset(r, rule)
+	// (j) every event goes out through the post function, which is what arms the expiry timer for
+	// the expiry the event carries: nobody else calls the fan-out
+	if a := &m.A; a.FanoutFn != nil && a.PostFn != nil {
+		other := ""
+		for _, cl := range m.staticCallersOf(a.FanoutFn) {
+			if rootOf(cl.Parent()) != a.PostFn {
+				other = m.declName(rootOf(cl.Parent())) + " at " + m.instrPos(cl)
+			}
+		}
+		r.check(other == "", rule, "j / <fan-out> / reached only through the post function", m.pos(a.FanoutFn.Pos()), "the fan-out's only caller is the post function (which arms the timer with the event's expiry)", "the fan-out is called directly by "+other+", bypassing the post function: the feeds get the event, but the expiry timer is not armed for the expiry it carries, so the document outlives its expiry until some other write arms the timer")
+	}
+	// (i) an entry point that takes no expiry hands none to the writer: it does not pass a constant
+	// to a wrapper whose expiry parameter ends up as the optional (pointer) expiry of the xattr
+	// writer - a literal 0 there means "store 0", i.e. it removes the document's expiry
+	{
+		isExpT := func(t types.Type) bool {
+			b, ok := t.Underlying().(*types.Basic)
+			return ok && b.Kind() == types.Uint32
+		}
+		// wrappers: functions with a uint32 parameter whose address flows into a *uint32 argument of a package function
+		wrappers := map[*ssa.Function]int{}
+		for _, fn := range m.Funcs {
+			if fn.Parent() != nil || len(fn.Blocks) == 0 {
+				continue
+			}
+			for pi, p := range fn.Params {
+				if !isExpT(p.Type()) || p.Referrers() == nil {
+					continue
+				}
+				// the parameter's spill cell
+				for _, ref := range *p.Referrers() {
+					st, ok := ref.(*ssa.Store)
+					if !ok || st.Val != ssa.Value(p) {
+						continue
+					}
+					cell, ok := st.Addr.(*ssa.Alloc)
+					if !ok || cell.Referrers() == nil {
+						continue
+					}
+					flows := false
+					var follow func(v ssa.Value, d int)
+					follow = func(v ssa.Value, d int) {
+						if d > 4 || v.Referrers() == nil {
+							return
+						}
+						for _, u := range *v.Referrers() {
+							switch x := u.(type) {
+							case *ssa.Phi:
+								follow(x, d+1)
+							case ssa.CallInstruction:
+								if g := x.Common().StaticCallee(); g != nil && m.inPkg(g) {
+									for _, arg := range x.Common().Args {
+										if arg == v {
+											if pt, ok := arg.Type().Underlying().(*types.Pointer); ok && isExpT(pt.Elem()) {
+												flows = true
+											}
+										}
+									}
+								}
+								if cv, ok := u.(ssa.Value); ok {
+									// ifelse(cond, nil, &exp): a generic selector returning one of its arguments
+									for _, arg := range x.Common().Args {
+										if arg == v && types.Identical(cv.Type(), arg.Type()) {
+											follow(cv, d+1)
+										}
+									}
+								}
+							}
+						}
+					}
+					follow(cell, 0)
+					if flows {
+						wrappers[fn] = pi
+					}
+				}
+			}
+		}
+		ni := 0
+		for _, fn := range m.Funcs {
+			if fn.Parent() != nil || len(fn.Blocks) == 0 {
+				continue
+			}
+			hasExp := false
+			for _, p := range fn.Params {
+				if isExpT(p.Type()) {
+					hasExp = true
+				}
+				if pt, ok := p.Type().Underlying().(*types.Pointer); ok && isExpT(pt.Elem()) {
+					hasExp = true
+				}
+			}
+			if hasExp {
+				continue
+			}
+			m.eachCall(fn, func(c ssa.CallInstruction) {
+				g := c.Common().StaticCallee()
+				pi, isW := wrappers[g]
+				if !isW || pi >= len(c.Common().Args) {
+					return
+				}
+				ni++
+				_, isConst := stripConv(c.Common().Args[pi]).(*ssa.Const)
+				r.check(!isConst, rule, "i / "+m.declName(fn)+" / no expiry of its own handed to "+m.declName(g), m.instrPos(c), "", "an operation that takes no expiry passes a constant expiry to "+g.Name()+", which stores it: the document's expiry is replaced (a literal 0 removes it) by a call that was not given one")
+			})
+		}
+		r.ok(rule, "i / inventory", "-", "%d expiry-taking wrapper(s) of the optional-expiry writer; %d call(s) from functions without an expiry parameter", len(wrappers), ni)
+	}
 }
 
 func (m *Model) eventExpField() *types.Var {
@@ -2034,7 +2141,10 @@ func (m *Model) errorBeyondScan(h *ssa.Function) string {
 }
 
 func isErrorType(t types.Type) bool {
-	return types.Identical(t, types.Universe.Lookup("error").Type())
+	// (not types.Identical: go/ssa's internal opaque types - range iterators, the defer stack -
+	// make it panic)
+	n, ok := t.(*types.Named)
+	return ok && n.Obj().Pkg() == nil && n.Obj().Name() == "error"
 }
 
 // revHelperOK: when the revision number is read through a helper that also fails for a row that
